@@ -355,6 +355,95 @@ def _bmc_pass(keys, outs, procs):
             _vals.BOUND = None
             _eng.AXIOM_ARRAYS = False
             _ALL = []
+    _validate_bmc(todo)
+
+
+def _base_key(name):
+    import re
+    return re.sub(r"@L\d+", "", re.sub(r":bmc\d+:", ":", name))
+
+
+def _validate_bmc(todo):
+    """A bounded counterexample is only a HINT: index quantifiers are expanded over a small domain, which is exact for quantifiers that range
+    over positions of bounded sequences but not for quantifiers over arbitrary integers (an `exists x` whose witness lies outside the domain
+    looks false).  So (1) a counterexample for an obligation the unbounded pass PROVED is dropped - a proof is a proof; (2) every other
+    counterexample is confirmed against the UNBOUNDED verification condition: the integer / boolean constants of the model are pinned and z3
+    is asked again; only a definite `sat` of the unbounded query keeps it (unsat -> spurious, unknown -> stays undecided)."""
+    import z3 as _z3
+    for key, out in todo:
+        bmc = out.get("bmc")
+        if not bmc or not bmc.get("counterexamples"):
+            continue
+        status = {}
+        for o in out["obligations"]:
+            status.setdefault(_base_key(o["name"]), []).append(o["status"])
+        try:
+            _o2, obligs = _generate_unit(key)          # unbounded obligations (deterministic fresh names: parameters are created first)
+        except Exception:
+            obligs = []
+        by_key = {}
+        for ob in obligs:
+            by_key.setdefault(_base_key(ob.name), []).append(ob)
+        kept, dropped = [], []
+        for c in bmc["counterexamples"]:
+            k = _base_key(c["name"])
+            sts = status.get(k, [])
+            if sts and all(s_ == "discharged" for s_ in sts):
+                dropped.append({"name": c["name"], "why": "the unbounded pass proved this obligation"})
+                continue
+            confirmed = False
+            for ob in by_key.get(k, []):
+                try:
+                    sol = _z3.Solver()
+                    sol.set("timeout", 10000)
+                    for h in ob.hyps:
+                        sol.add(h)
+                    sol.add(_z3.Not(ob.goal))
+                    consts = {}
+                    for f in list(ob.hyps) + [ob.goal]:
+                        for t in _subterms_consts(f):
+                            consts[t.decl().name()] = t
+                    for name, val in (c.get("model") or {}).items():
+                        t = consts.get(name)
+                        if t is None:
+                            continue
+                        v = str(val).replace("(- ", "-").replace(")", "").strip()
+                        if _z3.is_int(t) and v.lstrip("-").isdigit():
+                            sol.add(t == int(v))
+                        elif _z3.is_bool(t) and v in ("true", "false"):
+                            sol.add(t == (v == "true"))
+                    if sol.check() == _z3.sat:
+                        confirmed = True
+                        break
+                except Exception:
+                    continue
+            if confirmed:
+                c["validated"] = "model pinned in the unbounded verification condition: sat"
+                kept.append(c)
+            else:
+                dropped.append({"name": c["name"], "why": "not confirmed by the unbounded verification condition with the model's constants pinned"})
+        bmc["counterexamples"] = kept
+        if dropped:
+            bmc["dropped"] = dropped
+
+
+def _subterms_consts(f, seen=None):
+    """uninterpreted constants (arity 0) occurring in a z3 term"""
+    import z3 as _z3
+    seen = set() if seen is None else seen
+    stack = [f]
+    while stack:
+        t = stack.pop()
+        if t.get_id() in seen:
+            continue
+        seen.add(t.get_id())
+        if _z3.is_quantifier(t):
+            stack.append(t.body())
+            continue
+        if _z3.is_app(t):
+            if t.num_args() == 0 and t.decl().kind() == _z3.Z3_OP_UNINTERPRETED:
+                yield t
+            stack.extend(t.children())
 
 
 def verify_units(keys, both=False, procs=None):
